@@ -91,6 +91,7 @@ class Runner:
         self.delivered_ids = set()
         self.last_ex = None
         self.inflight_delivered = []
+        self.caught = []
         self.init_log = None
         self.init_error = None
         if case.get('consumer', True):
@@ -185,21 +186,48 @@ class Runner:
             raise KeyError(handle)
         return ent
 
+    REJECTED = (ApiUsageError, KeyError, ValueError)
+
+    def handled(self, op, indices, ex):
+        """op['catch']: the application catches a rejected API call inside the transaction body and goes on"""
+        if not op.get('catch') or not isinstance(ex, self.REJECTED):
+            raise ex
+        self.caught += [[i, exc_code(ex)] for i in indices]
+
     def do_state(self, op):
         body_step = 0
+        unget = op.get('unget')
+        unget = [unget] if isinstance(unget, int) else (unget or [])
+        batch = op.get('batch') or 0          # the first `batch` items are written by ONE write_entities call
         with getattr(self.pm, TX[op['tx']])() as tr:
+            if batch:
+                ents = []
+                for handle, n, *slot in op['items'][:batch]:
+                    ent = self.entity(handle, *slot)
+                    if not ent.is_multi_state:
+                        mdibrun.set_payload(ent.state, n, self.pm_types)
+                    ents.append(ent)
+                try:
+                    tr.write_entities(ents)
+                except Exception as ex:  # noqa: BLE001
+                    self.handled(op, range(batch), ex)
             for i, (handle, n, *slot) in enumerate(op['items']):
+                if i < batch:
+                    continue
                 if op.get('abort_at') == i:
                     raise Abort
-                if op.get('iface') == 'entity':
-                    ent = self.entity(handle, *slot)
-                    mdibrun.set_payload(ent.state, n, self.pm_types)
-                    tr.write_entity(ent)
-                else:
-                    st = tr.get_state(handle)
-                    mdibrun.set_payload(st, n, self.pm_types)
-                    if op.get('unget') == i:
-                        tr.unget_state(st)
+                try:
+                    if op.get('iface') == 'entity':
+                        ent = self.entity(handle, *slot)
+                        mdibrun.set_payload(ent.state, n, self.pm_types)
+                        tr.write_entity(ent)
+                    else:
+                        st = tr.get_state(handle)
+                        mdibrun.set_payload(st, n, self.pm_types)
+                        if i in unget:
+                            tr.unget_state(st)
+                except Exception as ex:  # noqa: BLE001
+                    self.handled(op, [i], ex)
             if op.get('abort_at') == len(op['items']):
                 raise Abort
         return body_step
@@ -209,57 +237,62 @@ class Runner:
             for i, act in enumerate(op['actions']):
                 if op.get('abort_at') == i:
                     raise Abort
-                kind = act[0]
-                if kind == 'mk':
-                    _, dh, handle, assoc, n, *slot = act
-                    if op.get('iface') == 'entity':
-                        ent = self.entity(dh, *slot)
-                        st = ent.new_state(handle)
-                        mdibrun.set_payload(st, n, self.pm_types)
-                        if assoc:
-                            st.ContextAssociation = self.pm_types.ContextAssociation.ASSOCIATED
-                            st.BindingMdibVersion = tr.new_mdib_version
-                        tr.write_entity(ent, [st.Handle])
-                    elif op.get('add_state') and handle is not None:
+                try:
+                    kind = act[0]
+                    if kind == 'mk':
+                        _, dh, handle, assoc, n, *slot = act
+                        if op.get('iface') == 'entity':
+                            ent = self.entity(dh, *slot)
+                            st = ent.new_state(handle)
+                            mdibrun.set_payload(st, n, self.pm_types)
+                            if assoc:
+                                st.ContextAssociation = self.pm_types.ContextAssociation.ASSOCIATED
+                                st.BindingMdibVersion = tr.new_mdib_version
+                            tr.write_entity(ent, [st.Handle])
+                        elif op.get('add_state') and handle is not None:
+                            handle = self.real_handle(handle)
+                            # the application builds the container itself and hands it to add_state
+                            st = self.pm.data_model.mk_state_container(self.pm.descriptions.handle.get_one(dh))
+                            st.Handle = handle
+                            mdibrun.set_payload(st, n, self.pm_types)
+                            if assoc:
+                                st.ContextAssociation = self.pm_types.ContextAssociation.ASSOCIATED
+                                st.BindingMdibVersion = tr.new_mdib_version
+                                st.BindingStartTime = mdibrun._real_time.time()
+                            if op.get('add_state') == 'bare':
+                                st.descriptor_container = None      # add_state looks the descriptor up itself
+                            tr.add_state(st)
+                        else:
+                            handle = self.real_handle(handle) if 'existing-ctx-handle' in op.get('tag', []) else handle
+                            st = tr.mk_context_state(dh, handle, set_associated=bool(assoc))
+                            mdibrun.set_payload(st, n, self.pm_types)
+                    elif kind == 'get':
+                        _, handle, n, assoc, *slot = act
                         handle = self.real_handle(handle)
-                        # the application builds the container itself and hands it to add_state
-                        st = self.pm.data_model.mk_state_container(self.pm.descriptions.handle.get_one(dh))
-                        st.Handle = handle
+                        if op.get('iface') == 'entity':
+                            st0 = self.pm.context_states.handle.get_one(handle)
+                            ent = self.entity(st0.DescriptorHandle, *slot)
+                            st = ent.states[handle]
+                        else:
+                            st = tr.get_context_state(handle)
                         mdibrun.set_payload(st, n, self.pm_types)
-                        if assoc:
-                            st.ContextAssociation = self.pm_types.ContextAssociation.ASSOCIATED
-                            st.BindingMdibVersion = tr.new_mdib_version
-                            st.BindingStartTime = mdibrun._real_time.time()
-                        tr.add_state(st)
-                    else:
-                        handle = self.real_handle(handle) if 'existing-ctx-handle' in op.get('tag', []) else handle
-                        st = tr.mk_context_state(dh, handle, set_associated=bool(assoc))
-                        mdibrun.set_payload(st, n, self.pm_types)
-                elif kind == 'get':
-                    _, handle, n, assoc, *slot = act
-                    handle = self.real_handle(handle)
-                    if op.get('iface') == 'entity':
+                        if assoc is not None:
+                            st.ContextAssociation = (self.pm_types.ContextAssociation.ASSOCIATED if assoc
+                                                     else self.pm_types.ContextAssociation.DISASSOCIATED)
+                        if op.get('iface') == 'entity':
+                            tr.write_entity(ent, [handle])
+                    elif kind == 'disall':
+                        _, dh, ignored = act
+                        tr.disassociate_all(dh, self.real_handle(ignored))
+                    elif kind == 'delstate':     # entity interface only: delete a context state
+                        _, handle = act
+                        handle = self.real_handle(handle)
                         st0 = self.pm.context_states.handle.get_one(handle)
-                        ent = self.entity(st0.DescriptorHandle, *slot)
-                        st = ent.states[handle]
-                    else:
-                        st = tr.get_context_state(handle)
-                    mdibrun.set_payload(st, n, self.pm_types)
-                    if assoc is not None:
-                        st.ContextAssociation = (self.pm_types.ContextAssociation.ASSOCIATED if assoc
-                                                 else self.pm_types.ContextAssociation.DISASSOCIATED)
-                    if op.get('iface') == 'entity':
+                        ent = self.pm.entities.by_handle(st0.DescriptorHandle)
+                        ent.states.pop(handle)
                         tr.write_entity(ent, [handle])
-                elif kind == 'disall':
-                    _, dh, ignored = act
-                    tr.disassociate_all(dh, self.real_handle(ignored))
-                elif kind == 'delstate':     # entity interface only: delete a context state
-                    _, handle = act
-                    handle = self.real_handle(handle)
-                    st0 = self.pm.context_states.handle.get_one(handle)
-                    ent = self.pm.entities.by_handle(st0.DescriptorHandle)
-                    ent.states.pop(handle)
-                    tr.write_entity(ent, [handle])
+                except Exception as ex:  # noqa: BLE001
+                    self.handled(op, [i], ex)
             if op.get('abort_at') == len(op['actions']):
                 raise Abort
 
@@ -328,8 +361,13 @@ class Runner:
 
     def do_reseq(self, op):
         import uuid as _u
-        self.pm.sequence_id = _u.UUID(int=0x5E0000 + op['n']).urn
-        if op.get('inst'):
+        if op.get('seq', True):
+            self.pm.sequence_id = _u.UUID(int=0x5E0000 + op['n']).urn
+        how = op.get('inst')
+        if how in ('none', 'zero'):          # the InstanceId goes away / becomes 0 (a number if it was that already)
+            want = None if how == 'none' else 0
+            self.pm.instance_id = want if self.pm.instance_id != want else op['n'] + 10
+        elif how:
             self.pm.instance_id = (self.pm.instance_id or 0) + 1
 
     def do_reload(self, op):
@@ -437,80 +475,83 @@ class Runner:
             for i, act in enumerate(op['actions']):
                 if op.get('abort_at') == i:
                     raise Abort
-                kind = act[0]
-                if kind == 'add':
-                    _, handle, parent, type_name, n, with_state, *slot = act
-                    if op.get('iface') == 'entity' and slot:
-                        # the entity was read before its descriptor was removed: writing it creates the descriptor again
-                        ent = self.entity(handle, *slot)
-                        mdibrun.set_payload(ent.descriptor, n, self.pm_types)
-                        pending_mds[handle] = ent.descriptor.source_mds
-                        if not ent.is_multi_state and with_state is not None:
-                            mdibrun.set_payload(ent.state, with_state, self.pm_types)
-                        tr.write_entity(ent)
-                    elif op.get('iface') == 'entity':
-                        ent = self.pm.entities.by_handle(self.template(type_name).Handle)   # private deep copies
-                        ent.descriptor.Handle = handle
-                        ent.descriptor.parent_handle = parent
-                        ent.descriptor.DescriptorVersion = 0
-                        # like ProviderEntityGetter.new_entity: the source MDS is inherited from the parent; a
-                        # descriptor without parent is an MDS and its own source
-                        par = self.pm.descriptions.handle.get_one(parent, allow_none=True) if parent is not None else None
-                        ent.descriptor.set_source_mds(handle if parent is None else
-                                                      par.source_mds if par is not None else pending_mds.get(parent))
-                        pending_mds[handle] = ent.descriptor.source_mds
-                        mdibrun.set_payload(ent.descriptor, n, self.pm_types)
-                        if ent.is_multi_state:
-                            ent.states.clear()
-                        else:
-                            ent.state.DescriptorHandle = handle
-                            ent.state.descriptor_container = ent.descriptor
-                            ent.state.StateVersion = 0
-                            if with_state is not None:
+                try:
+                    kind = act[0]
+                    if kind == 'add':
+                        _, handle, parent, type_name, n, with_state, *slot = act
+                        if op.get('iface') == 'entity' and slot:
+                            # the entity was read before its descriptor was removed: writing it creates the descriptor again
+                            ent = self.entity(handle, *slot)
+                            mdibrun.set_payload(ent.descriptor, n, self.pm_types)
+                            pending_mds[handle] = ent.descriptor.source_mds
+                            if not ent.is_multi_state and with_state is not None:
                                 mdibrun.set_payload(ent.state, with_state, self.pm_types)
-                        tr.write_entity(ent)
-                    else:
-                        d = copy.deepcopy(self.template(type_name))
-                        d.Handle = handle
-                        d.parent_handle = parent
-                        d.DescriptorVersion = 0
-                        d.set_source_mds(None)                    # a new descriptor: the library determines its MDS
-                        mdibrun.set_payload(d, n, self.pm_types)
-                        st = None
-                        if not d.is_context_descriptor:
-                            st = self.pm.data_model.mk_state_container(d)
-                            if with_state is not None:
-                                mdibrun.set_payload(st, with_state, self.pm_types)
-                        tr.add_descriptor(d, state_container=st)
-                elif kind == 'upd':
-                    _, handle, n, *slot = act
-                    if op.get('iface') == 'entity':
-                        ent = self.entity(handle, *slot)
-                        mdibrun.set_payload(ent.descriptor, n, self.pm_types)
-                        tr.write_entity(ent)
-                    else:
+                            tr.write_entity(ent)
+                        elif op.get('iface') == 'entity':
+                            ent = self.pm.entities.by_handle(self.template(type_name).Handle)   # private deep copies
+                            ent.descriptor.Handle = handle
+                            ent.descriptor.parent_handle = parent
+                            ent.descriptor.DescriptorVersion = 0
+                            # like ProviderEntityGetter.new_entity: the source MDS is inherited from the parent; a
+                            # descriptor without parent is an MDS and its own source
+                            par = self.pm.descriptions.handle.get_one(parent, allow_none=True) if parent is not None else None
+                            ent.descriptor.set_source_mds(handle if parent is None else
+                                                          par.source_mds if par is not None else pending_mds.get(parent))
+                            pending_mds[handle] = ent.descriptor.source_mds
+                            mdibrun.set_payload(ent.descriptor, n, self.pm_types)
+                            if ent.is_multi_state:
+                                ent.states.clear()
+                            else:
+                                ent.state.DescriptorHandle = handle
+                                ent.state.descriptor_container = ent.descriptor
+                                ent.state.StateVersion = 0
+                                if with_state is not None:
+                                    mdibrun.set_payload(ent.state, with_state, self.pm_types)
+                            tr.write_entity(ent)
+                        else:
+                            d = copy.deepcopy(self.template(type_name))
+                            d.Handle = handle
+                            d.parent_handle = parent
+                            d.DescriptorVersion = 0
+                            d.set_source_mds(None)                    # a new descriptor: the library determines its MDS
+                            mdibrun.set_payload(d, n, self.pm_types)
+                            st = None
+                            if not d.is_context_descriptor:
+                                st = self.pm.data_model.mk_state_container(d)
+                                if with_state is not None:
+                                    mdibrun.set_payload(st, with_state, self.pm_types)
+                            tr.add_descriptor(d, state_container=st)
+                    elif kind == 'upd':
+                        _, handle, n, *slot = act
+                        if op.get('iface') == 'entity':
+                            ent = self.entity(handle, *slot)
+                            mdibrun.set_payload(ent.descriptor, n, self.pm_types)
+                            tr.write_entity(ent)
+                        else:
+                            d = tr.get_descriptor(handle)
+                            mdibrun.set_payload(d, n, self.pm_types)
+                    elif kind == 'updsrc':      # change an INDEXED attribute: AlertCondition.Source / AlertSignal.ConditionSignaled
+                        _, handle, value = act
                         d = tr.get_descriptor(handle)
-                        mdibrun.set_payload(d, n, self.pm_types)
-                elif kind == 'updsrc':      # change an INDEXED attribute: AlertCondition.Source / AlertSignal.ConditionSignaled
-                    _, handle, value = act
-                    d = tr.get_descriptor(handle)
-                    if hasattr(d, 'Source') and d.NODETYPE.localname.endswith('ConditionDescriptor'):
-                        d.Source = list(value)
-                    else:
-                        d.ConditionSignaled = value[0] if value else None
-                elif kind == 'del':
-                    _, handle = act
-                    if op.get('iface') == 'entity':
-                        ent = self.pm.entities.by_handle(handle)
-                        if ent is None:
-                            raise KeyError(handle)
-                        tr.remove_entity(ent)
-                    else:
-                        tr.remove_descriptor(handle)
-                elif kind == 'state':
-                    _, handle, n = act
-                    st = tr.get_state(handle)
-                    mdibrun.set_payload(st, n, self.pm_types)
+                        if hasattr(d, 'Source') and d.NODETYPE.localname.endswith('ConditionDescriptor'):
+                            d.Source = list(value)
+                        else:
+                            d.ConditionSignaled = value[0] if value else None
+                    elif kind == 'del':
+                        _, handle = act
+                        if op.get('iface') == 'entity':
+                            ent = self.pm.entities.by_handle(handle)
+                            if ent is None:
+                                raise KeyError(handle)
+                            tr.remove_entity(ent)
+                        else:
+                            tr.remove_descriptor(handle)
+                    elif kind == 'state':
+                        _, handle, n = act
+                        st = tr.get_state(handle)
+                        mdibrun.set_payload(st, n, self.pm_types)
+                except Exception as ex:  # noqa: BLE001
+                    self.handled(op, [i], ex)
             if op.get('abort_at') == len(op['actions']):
                 raise Abort
 
@@ -534,6 +575,7 @@ class Runner:
             self.resolved = None
             self.inflight_delivered = []
             self.reload_log = None
+            self.caught = []
             res = self.exec_op(op)
             cur_p = mdibrun.snapshot(self.pm, self.canon)
             reports = []
@@ -573,6 +615,8 @@ class Runner:
             step = {'res': res, 'prov': delta(prev_p, cur_p), 'reports': reports, 'delivered': delivered}
             if self.resolved is not None:
                 step['resolved'] = self.resolved
+            if self.caught:
+                step['caught'] = self.caught
             if op['k'] == 'reload':
                 step['inflight'] = self.inflight_delivered
                 if self.reload_log:
